@@ -183,6 +183,19 @@ def gen_large(rng, min_stems=40, max_stems=110):
     return {"triples": layout(order, lengths, gaps, rng), "family": "large:%d" % base}
 
 
+def gen_far_knot(rng):
+    """A near-tie knot at the far end of a genome-size molecule: tens of thousands of unpaired positions, then one
+    long stem crossed by m two-pair stems whose total is one pair more or one pair fewer than the long stem.  Any
+    position-dependent or size-dependent perturbation of the weights tips the balance here and nowhere else."""
+    prefix = rng.randint(20000, 60000)
+    m = rng.randint(5, 12)
+    handle = 2 * m + rng.choice([-1, 1])
+    order = [0] + list(range(1, m + 1)) + [0] + list(reversed(range(1, m + 1)))
+    lengths = [handle] + [2] * m
+    gaps = [prefix] + [rng.choice([1, 2]) for _ in range(len(order) - 1)] + [rng.choice([0, 3])]
+    return {"triples": layout(order, lengths, gaps, rng), "family": "farknot:%d" % m}
+
+
 def gen_broom(rng, min_leaves=9, max_leaves=13):
     """One or two 'handle' stems each crossing many nested one- or two-pair stems: the maximum degree of the
     conflict graph (and with it the level bound of the emitted model) reaches two digits although only two
